@@ -12,3 +12,5 @@ import SsqlVerif.Props.C02
 #print axioms C02.session_no_early_delivery
 #print axioms C02.session_drop_only_if_late
 #print axioms C02.session_late_update
+#print axioms C02.sliding_late_update_contents
+#print axioms C02.sliding_every_open_window_redelivered
